@@ -264,6 +264,33 @@ def run(pid, tier, seed):
                     exp.append(fmt_instant(*inst) + ":" + ln)
                 jobs.append((name + ":" + fv + ("" if fi_ == 0 else ":shuffled"), fbs, "\n".join(lines) + "\n", exp))
 
+        # timestamps that EXTEND the one on the line before: the same second with one more fractional digit each line
+        # (.2, .25, .257, ...), a zone name that goes on where the previous one ended (PET then PETT, WIT then WITA)
+        pairs = [("PET", "PETT"), ("WIT", "WITA"), ("AMT", "AMST"), ("CHAST", "CHADT")]
+        pairs = [(a_, b_) for a_, b_ in pairs if a_ in ABBR and b_ in ABBR]
+        for name, zk, maxfd, render, fv in variants:
+            if not ((fv == "frac" and maxfd >= 3) or (zk == "abbr" and fv in ("fixed", "nofrac"))):
+                continue
+            fbs, fbm = fallbacks[0]
+            lines, exp = [], []
+            for i, t0_ in enumerate(sts[:25]):
+                if fv == "frac":
+                    steps = [dict(t0_, fd=fd_, n=int(("%09d" % ((t0_["n"] * 7919 + 123456789) % 10**9))[:fd_].ljust(9, "0"))) for fd_ in range(1, maxfd + 1)]
+                else:
+                    a_, b_ = pairs[i % len(pairs)] if pairs else ("UTC", "UTC")
+                    steps = [dict(t0_, fd=0, n=0, abbr=a_), dict(t0_, fd=0, n=0, abbr=b_), dict(t0_, fd=0, n=0, abbr=a_)]
+                for t in steps:
+                    if zk == "epoch":
+                        break
+                    inst = instant(t, fbm, zk)
+                    if not (0 < inst[0] < 47481):
+                        continue
+                    ln = "%s line=%d" % (render(t), len(lines))
+                    lines.append(ln)
+                    exp.append(fmt_instant(*inst) + ":" + ln)
+            if lines:
+                jobs.append((name + ":" + fv + ":extending", fbs, "\n".join(lines) + "\n", exp))
+
         def do(job):
             name, fbs, blob, exp = job
             d = os.path.join(sc, "n", "%s_%s" % (name.replace(":", "_"), fbs.replace(":", "c").replace("+", "p").replace("-", "m")))
